@@ -36,6 +36,7 @@ inductive Step where
   | discBytes
   | disc (n : Nat)
   | arr (body : List Step)
+  | arrB (elem : Nat) (body : List Step)   -- count checked first: `if n < 0 || n > size/elem { error }` (ApiVersions)
   | ifGe (v : Nat) (body : List Step)
   | failIfErr
   | expect1
@@ -89,6 +90,12 @@ def runStep : Step → P
     match readInt 4 s with
     | (.error e, s') => (.error e, s')
     | (.ok n, s') => iter n.toNat (runSteps body) c s'
+  | .arrB elem body => fun c s =>
+    match readInt 4 s with
+    | (.error e, s') => (.error e, s')
+    | (.ok n, s') =>
+      if n < 0 ∨ n > (s'.sz / elem : Nat) then (.error (.other "invalid element count"), s')
+      else iter n.toNat (runSteps body) c s'
   | .ifGe v body => fun c s => if c.ver ≥ v then runSteps body c s else (.ok c, s)
   | .failIfErr => fun c s => if c.lastErr ≠ 0 then (.error (.kafka c.lastErr), s) else (.ok c, s)
   | .expect1 => fun c s =>
@@ -100,12 +107,12 @@ def runStep : Step → P
   | .setSizeCheck => fun c s =>
     if (s.sz : Int) ≠ c.setSize then (.error (.other "message set size mismatch"), s) else (.ok c, s)
   | .abortedTxs => fun c s =>
-    -- readArrayLen; -1 → nil; else make([]AbortedTransaction, n) (panics for n < -1) and n × read(struct{int64;int64})
+    -- readArrayLen; -1 → nil; a count < -1 or > remain/16 is rejected; else n × read(struct{int64;int64})
     match readInt 4 s with
     | (.error e, s') => (.error e, s')
     | (.ok n, s') =>
       if n = -1 then (.ok c, s')
-      else if n < 0 then (.error (.panic "makeslice: len out of range"), s')
+      else if n < 0 then (.error .shortRead, s')   -- rejected with a wrapped errShortRead since the count is bounded (was: makeslice panic)
       else iter n.toNat (fun c s => match readInt 8 s with
                                     | (.error e, s') => (.error e, s')
                                     | (.ok _, s') => lift (readInt 8) (fun c _ => c) c s') c s'
@@ -122,6 +129,7 @@ mutual
 def Step.hasFail : Step → Bool
   | .failIfErr => true
   | .arr body => hasFailList body
+  | .arrB _ body => hasFailList body
   | .ifGe _ body => hasFailList body
   | _ => false
 def hasFailList : List Step → Bool
@@ -129,7 +137,34 @@ def hasFailList : List Step → Bool
   | s :: r => s.hasFail || hasFailList r
 end
 
-/-! ### closures written inline in conn.go / read.go (hand transcription) -/
+-- structural equality of parser programs (to compare the transcriptions below with what the translator regenerates)
+mutual
+def Step.eqv : Step → Step → Bool
+  | .int a, .int b => a == b
+  | .err, .err => true
+  | .str, .str => true
+  | .bytes, .bytes => true
+  | .discStr, .discStr => true
+  | .discBytes, .discBytes => true
+  | .disc a, .disc b => a == b
+  | .arr a, .arr b => stepsEq a b
+  | .arrB e a, .arrB f b => e == f && stepsEq a b
+  | .ifGe v a, .ifGe w b => v == w && stepsEq a b
+  | .failIfErr, .failIfErr => true
+  | .expect1, .expect1 => true
+  | .hwm, .hwm => true
+  | .setSizeRead, .setSizeRead => true
+  | .setSizeCheck, .setSizeCheck => true
+  | .abortedTxs, .abortedTxs => true
+  | _, _ => false
+def stepsEq : List Step → List Step → Bool
+  | [], [] => true
+  | a :: as, b :: bs => a.eqv b && stepsEq as bs
+  | _, _ => false
+end
+
+/-! ### closures written inline in conn.go / read.go (transcription; `Props/C11.closures_regenerated` checks them against
+the programs the translator regenerates from read.go / conn.go on every run) -/
 
 /-- listoffset.go `partitionOffsetV1.readFrom` is generated; this is the closure of conn.go `readOffset`. -/
 def readOffsetClosure (partitionOffsetV1 : List Step) : List Step :=
@@ -163,8 +198,8 @@ def fetchHeaderV10 : List Step :=
 def fetchHeader (v : Nat) : List Step :=
   if v ≥ 10 then fetchHeaderV10 else if v ≥ 5 then fetchHeaderV5 else fetchHeaderV2
 
-/-- conn.go ApiVersions (v0): error code, int32 count, `make([]ApiVersion, n)`, n × (int16 int16 int16) -/
-def apiVersionsParse : List Step := [ .err, .arr [ .int 2, .int 2, .int 2 ] ]
+/-- conn.go ApiVersions (v0): error code, int32 count (rejected if negative or larger than size/6), n × (int16 int16 int16) -/
+def apiVersionsParse : List Step := [ .err, .arrB 6 [ .int 2, .int 2, .int 2 ] ]
 
 /-! ### one request/response exchange: (*Conn).do and friends -/
 
@@ -244,11 +279,26 @@ def connDo (o : OpSpec) (v : Nat) (topic : Bytes) (c : Conn) : Outcome × Conn :
   if c.closed then (.fail (.other "use of closed connection"), c)
   else
     match waitResponse c with
-    | .error .eof => (.fail .eof, { c with nextId := c.nextId + 1, closed := true })    -- waitResponse closes on peek errors
-    | .error e => (.fail e, { c with nextId := c.nextId + 1 })                          -- io.ErrNoProgress: kept, nothing consumed
+    | .error e => (.fail e, { c with nextId := c.nextId + 1, closed := true })
+      -- waitResponse closes the Conn on peek errors and — since the fix for C11-D30 — also when a lone waiter finds a
+      -- foreign correlation id (io.ErrNoProgress): the stream is desynchronised for good
     | .ok (sz, rest) =>
       let (out, s') := opRead o v topic ⟨rest, sz⟩
       (out, { stream := s'.inp, nextId := c.nextId + 1, closed := out.isFail && o.closeOnErr })
+
+/-! ### the un-framed exchange of saslAuthenticate after a v0 handshake
+
+    readInt32(&c.rbuf, 4, &respLen); respLen < 0 → error; readNewBytes(&c.rbuf, int(respLen), int(respLen))
+
+No size prefix of a frame, no correlation id; errors do not close the Conn (the dial that runs the exchange does). -/
+def rawToken (inp : Bytes) : Outcome × Bytes :=
+  match readInt 4 ⟨inp, 4⟩ with
+  | (.error e, s) => (.fail e, s.inp)
+  | (.ok n, s) =>
+    if n < 0 then (.fail (.other "invalid negative length of sasl authentication response"), s.inp)
+    else match readNewBytes n ⟨s.inp, n.toNat⟩ with
+      | (.ok _, s') => (.ok, s'.inp)
+      | (.error e, s') => (.fail e, s'.inp)
 
 /-! ### the read lock (c.rlock)
 
@@ -261,14 +311,21 @@ structure LockFacts where
   noProgress : Bool
   yield : Bool
   take : Bool          -- the matching-id exit keeps the lock and hands it to the caller
+  desyncCloses : Bool  -- the lone-waiter / foreign-id exit (io.ErrNoProgress) closes the Conn (fix for C11-D30)
+  leave : Bool         -- every exit of waitResponse passes through c.leave(): the in-flight count is given back;
+                       -- otherwise a later foreign-id response is not recognised as a lone-waiter desync
+                       -- (io.ErrNoProgress) and the waiter spins on the yield path forever
   doBody : Bool        -- (*Conn).do unlocks after the read closure, on every path
   apiVersions : Bool
   batchHandover : Bool -- ReadBatchWith puts the lock into the Batch it returns
   batchClose : Bool    -- (*Batch).close unlocks on every path
+  dropsBuffer : Bool := true  -- closing after a response that could not be read drops what is left of it in the read
+                       -- buffer (conn.go abortRead, /repo 248476c); not a lock fact and not part of `all`: without it a
+                       -- caller already in flight is served the leftover as if it were the next response
   deriving Repr, DecidableEq
 
 def LockFacts.all (f : LockFacts) : Bool :=
-  f.peekErr && f.noProgress && f.yield && f.take && f.doBody && f.apiVersions && f.batchHandover && f.batchClose
+  f.peekErr && f.noProgress && f.desyncCloses && f.yield && f.take && f.leave && f.doBody && f.apiVersions && f.batchHandover && f.batchClose
 
 inductive ExitPath where
   | notSent | peekErr | noProgress | body
@@ -289,15 +346,23 @@ def blocked : Outcome := .fail (.other "blocked forever in rlock.Lock()")
 def released (lf : LockFacts) (viaDo : Bool) : ExitPath → Bool
   | .notSent => true
   | .peekErr => lf.peekErr
-  | .noProgress => lf.noProgress
+  | .noProgress => lf.noProgress && lf.leave
   | .body => lf.take && (if viaDo then lf.doBody else lf.apiVersions)
 
-/-- one exchange on a Conn with its read lock: `cl.2` = the lock is held by nobody who will ever release it -/
+/-- one exchange on a Conn with its read lock: `cl.2` = the Conn is wedged (the lock is held by nobody who will ever
+release it, or the in-flight count leaked and a foreign response is waiting): a sent request never returns -/
 def connDoL (lf : LockFacts) (inflight : Bool) (o : OpSpec) (v : Nat) (topic : Bytes) (cl : Conn × Bool) : Outcome × (Conn × Bool) :=
-  if cl.2 && exitPath inflight cl.1 ≠ .notSent then (blocked, cl)
+  -- a caller already in flight when the Conn was closed finds the network connection closed — unless the closing path
+  -- left the rest of the broken response in the read buffer: then Peek serves it those bytes
+  let served := inflight && cl.1.closed && !lf.dropsBuffer
+  let c0 : Conn := if served then { cl.1 with closed := false } else cl.1
+  if cl.2 && exitPath inflight c0 ≠ .notSent then (blocked, cl)
   else
-    let r := if inflight && cl.1.closed then (Outcome.fail .eof, { cl.1 with nextId := cl.1.nextId + 1 }) else connDo o v topic cl.1
-    (r.1, (r.2, cl.2 || !released lf o.closeOnErr (exitPath inflight cl.1)))
+    let r := if inflight && c0.closed then (Outcome.fail .eof, { c0 with nextId := c0.nextId + 1 }) else connDo o v topic c0
+    -- code without the C11-D30 fix keeps the Conn open after io.ErrNoProgress
+    let r := if exitPath inflight c0 = .noProgress && !lf.desyncCloses then (r.1, { r.2 with closed := false }) else r
+    let r := if served then (r.1, { r.2 with closed := true }) else r
+    (r.1, (r.2, cl.2 || !released lf o.closeOnErr (exitPath inflight c0)))
 
 /-! ### fetch: ReadBatchWith, Batch.readMessage until an error, Batch.Close -/
 
@@ -317,7 +382,8 @@ def drainKafka (fixed : Bool) (k : Int) (s1 : RS) : Outcome × RS :=
     | (.error e, s2) => (.fail e, s2)
   else (.kafka k, s1)
 
-/-- ReadBatchWith + reading the batch to its end + Close; `fixed` = with discardOnKafkaError (D2 fix).
+/-- ReadBatchWith + reading the batch to its end + Close; `fixed` = with discardOnKafkaError (D2 fix) and with the
+skip of the message set at the high watermark (C11-D32).
 Deadlines never expire in the model (checkTimeoutErr = io.EOF). -/
 def fetchRead (fixed : Bool) (v : Nat) (offset : Int) (b : Body) (s : RS) : Outcome × RS :=
   match runSteps (fetchHeader v) { ver := v } s with
@@ -325,7 +391,8 @@ def fetchRead (fixed : Bool) (v : Nat) (offset : Int) (b : Body) (s : RS) : Outc
   | (.error .shortRead, s1) => (.fail .unexpectedEOF, s1)      -- checkTimeoutErr → io.EOF → dontExpectEOF
   | (.error e, s1) => (.fail e, s1)
   | (.ok c, s1) =>
-    if c.hwm = offset then (.kafka 7, s1)                       -- messageSetReader{empty: true}: RequestTimedOut, nothing discarded
+    if c.hwm = offset then drainKafka fixed 7 s1                -- messageSetReader{empty: true}: RequestTimedOut; the set the
+                                                                -- response nevertheless carries is skipped (fix C11-D32)
     else
       match b.first s1 with
       | (.error .shortRead, s2) => (.fail .unexpectedEOF, s2)   -- same mapping: an empty set below the watermark closes the Conn
@@ -346,8 +413,7 @@ def connFetch (fixed : Bool) (v : Nat) (offset : Int) (b : Body) (c : Conn) : Ou
   if c.closed then (.fail (.other "use of closed connection"), c)
   else
     match waitResponse c with
-    | .error .eof => (.fail .eof, { c with nextId := c.nextId + 1, closed := true })
-    | .error e => (.fail e, { c with nextId := c.nextId + 1 })
+    | .error e => (.fail e, { c with nextId := c.nextId + 1, closed := true })
     | .ok (sz, rest) =>
       let (out, s') := fetchRead fixed v offset b ⟨rest, sz⟩
       (out, { stream := s'.inp, nextId := c.nextId + 1, closed := out.isFail })
@@ -356,6 +422,7 @@ def connFetchL (lf : LockFacts) (fixed : Bool) (v : Nat) (offset : Int) (b : Bod
   if cl.2 && exitPath false cl.1 ≠ .notSent then (blocked, cl)
   else
     let r := connFetch fixed v offset b cl.1
+    let r := if exitPath false cl.1 = .noProgress && !lf.desyncCloses then (r.1, { r.2 with closed := false }) else r
     let rel := match exitPath false cl.1 with
       | .body => lf.take && lf.batchHandover && lf.batchClose
       | p => released lf true p
